@@ -49,7 +49,7 @@ func runC10(x *Ctx) {
 	tp := x.Tape
 	e := tp.G(len(c10Table) + 1)
 	var sc *chainScen
-	k := chainKnobs{cancels: 40, maxFilters: 2, richFilters: false, encoding: true, warm: true, panics: 600, errors: true, plain: true, nested: true, maxPayload: 1500, filterWrites: true}
+	k := chainKnobs{swapbuf: true, cancels: 40, maxFilters: 2, richFilters: false, encoding: true, warm: true, panics: 600, errors: true, plain: true, nested: true, maxPayload: 1500, filterWrites: true}
 	if e > 0 {
 		en := c10Table[e-1]
 		cfg := &ChainCfg{Entry: en.entry, Router: "curly", ContEnc: en.enc != "", Provider: "bounded", WCap: 1, RCap: 1, Recover: (en.recover + 2) % 3, Pretty: true, Preempt: 0}
